@@ -1,4 +1,5 @@
 import KafVerif.Lemmas.StorageLog
+import KafVerif.Model.StorageLogEtcd
 /-!
 C05 — The durable high watermark never regresses or runs ahead of S3.
 
@@ -107,3 +108,173 @@ example : ∃ s, Reachable fixed ⟨0, 0⟩ s ∧ 0 < s.hw := by
   | some s => rw [hr] at h; simp at h; exact ⟨s, reachable_run Reachable.init hr, by omega⟩
 
 end KafVerif.StorageLog
+
+/-! ## The etcd implementation of `UpdateOffsets` (get; compare; txn on mod revision; retry) -/
+
+namespace KafVerif.StorageLogEtcd
+
+structure Inv (s : State) : Prop where
+  rev : modRev s ≤ s.rev
+  txn : ∀ i next r, s.pcs i = .txn next r → r ≤ s.rev ∧ (modRev s = r → stored s ≤ next)
+
+theorem inv_init : Inv init := ⟨by simp [modRev, init], fun i n r h => by simp [init] at h⟩
+
+theorem setPc_inv {s : State} {i : Nat} {pc : CPc} (h : Inv s)
+    (hpc : ∀ next r, pc = .txn next r → r ≤ s.rev ∧ (modRev s = r → stored s ≤ next)) : Inv (setPc s i pc) := by
+  refine ⟨h.rev, ?_⟩
+  intro j next r hj
+  simp only [setPc] at hj
+  by_cases hji : j = i
+  · simp only [hji, if_true] at hj; exact hpc next r hj
+  · simp only [hji, if_false] at hj; exact h.txn j next r hj
+
+theorem inv_step {s s' : State} {e : Ev} (h : Inv s) (hs : step .fixed s e = some s') : Inv s' := by
+  cases e with
+  | call i next =>
+    simp only [step] at hs
+    split at hs <;> simp at hs
+    subst hs; exact setPc_inv h (fun _ _ hh => by cases hh)
+  | get i ok =>
+    simp only [step] at hs
+    split at hs
+    case h_2 => simp at hs
+    case h_1 next hpc =>
+      cases ok with
+      | false => simp at hs; subst hs; exact setPc_inv h (fun _ _ hh => by cases hh)
+      | true =>
+        simp only [if_true] at hs
+        cases hkv : s.kv with
+        | none =>
+          simp only [hkv, Option.some.injEq] at hs; subst hs
+          refine setPc_inv h (fun n r hh => ?_)
+          cases hh
+          exact ⟨Nat.zero_le _, fun _ => by simp [stored, hkv]⟩
+        | some p =>
+          simp only [hkv] at hs
+          split at hs
+          · simp at hs; subst hs; exact setPc_inv h (fun _ _ hh => by cases hh)
+          · simp at hs; subst hs
+            refine setPc_inv h (fun n r hh => ?_)
+            cases hh
+            have := h.rev
+            simp only [modRev, hkv] at this
+            exact ⟨this, fun _ => by simp [stored, hkv]; omega⟩
+  | txn i ok =>
+    simp only [step] at hs
+    split at hs
+    case h_2 => simp at hs
+    case h_1 next r hpc =>
+      cases ok with
+      | false => simp at hs; subst hs; exact setPc_inv h (fun _ _ hh => by cases hh)
+      | true =>
+        simp only [if_true] at hs
+        split at hs
+        · simp only [Option.some.injEq] at hs; subst hs
+          refine ⟨by simp [modRev], ?_⟩
+          intro j n' r' hj
+          simp only [setPc] at hj
+          by_cases hji : j = i
+          · simp [hji] at hj
+          · simp only [hji, if_false] at hj
+            have := (h.txn j n' r' hj).1
+            exact ⟨by simp; omega, fun hm => by simp [modRev] at hm; omega⟩
+        · simp only [Option.some.injEq] at hs; subst hs
+          exact setPc_inv h (fun _ _ hh => by cases hh)
+
+theorem reachable_inv {s : State} (h : Reachable .fixed s) : Inv s := by
+  induction h with
+  | init => exact inv_init
+  | step e _ hs ih => exact inv_step ih hs
+
+/-- **C05 on etcd (never regresses).** For every number of concurrent `UpdateOffsets` callers, every
+interleaving of their Get / Txn operations and every failure pattern, no step lowers the value
+stored under `next_offset`. -/
+theorem _root_.KafVerif.C05.etcd_hw_mono {s s' : State} {e : Ev} (h : Reachable .fixed s) (hs : step .fixed s e = some s') :
+    stored s ≤ stored s' := by
+  have hi := reachable_inv h
+  cases e with
+  | call i next =>
+    simp only [step] at hs
+    split at hs <;> simp at hs
+    subst hs; exact Nat.le_refl _
+  | get i ok =>
+    simp only [step] at hs
+    split at hs
+    case h_2 => simp at hs
+    case h_1 =>
+      split at hs
+      · split at hs
+        · split at hs <;> (simp at hs; subst hs; exact Nat.le_refl _)
+        · simp at hs; subst hs; exact Nat.le_refl _
+      · simp at hs; subst hs; exact Nat.le_refl _
+  | txn i ok =>
+    simp only [step] at hs
+    split at hs
+    case h_2 => simp at hs
+    case h_1 next r hpc =>
+      split at hs
+      · split at hs
+        · rename_i hm
+          simp only [Option.some.injEq] at hs; subst hs
+          have := (hi.txn i next r hpc).2 hm
+          simpa [stored, setPc] using this
+        · simp at hs; subst hs; exact Nat.le_refl _
+      · simp at hs; subst hs; exact Nat.le_refl _
+
+theorem _root_.KafVerif.C05.etcd_hw_mono_run {s s' : State} (evs : List Ev) (h : Reachable .fixed s)
+    (hr : run .fixed s evs = some s') : stored s ≤ stored s' := by
+  induction evs generalizing s with
+  | nil => simp [run] at hr; subst hr; exact Nat.le_refl _
+  | cons e es ih =>
+    simp only [run] at hr
+    split at hr
+    · rename_i s1 h1
+      exact Nat.le_trans (KafVerif.C05.etcd_hw_mono h h1) (ih (Reachable.step e h h1) hr)
+    · simp at hr
+
+/-- the older callback (next 6) reads the key, the newer one (next 10) commits, the older one's
+transaction conflicts and is retried -/
+def raceEvs : List Ev :=
+  [.call 0 4, .get 0 true, .txn 0 true,
+   .call 1 6, .get 1 true, .call 2 10, .get 2 true, .txn 2 true, .txn 1 true, .txn 1 true]
+
+def regressesOn (v : Variant) (evs : List Ev) : Bool :=
+  let rec go (s : State) (lo : Nat) : List Ev → Bool
+    | [] => false
+    | e :: es => match step v s e with
+      | some s' => decide (stored s' < lo) || go s' (max lo (stored s')) es
+      | none => false
+  go init 0 evs
+
+/-- **witness**: the compare-once restructuring (value compared only after the first Get; a
+conflicting txn adopts the winner's mod revision) lets the stored offset go 10 → 6. -/
+theorem _root_.KafVerif.C05.etcd_compare_once_regresses : regressesOn .once raceEvs = true := by decide
+
+/-- the code as it is re-reads and re-compares after the conflict: same schedule, no regression
+(the last command is not even enabled: the caller is back at its Get) -/
+theorem _root_.KafVerif.C05.etcd_fixed_same_schedule :
+    regressesOn .fixed raceEvs = false ∧
+    regressesOn .fixed [.call 0 4, .get 0 true, .txn 0 true, .call 1 6, .get 1 true, .call 2 10, .get 2 true,
+      .txn 2 true, .txn 1 true, .get 1 true] = false := by decide
+
+/-- non-vacuity: reachable states of the fixed protocol with a conflict in flight exist -/
+example : ∃ s, Reachable .fixed s ∧ stored s = 10 ∧ s.pcs 1 = .txn 6 2 := by
+  have h : ((run .fixed init (raceEvs.take 8)).map fun s => (stored s, s.pcs 1)) = some (10, .txn 6 2) := by decide
+  cases hr : run .fixed init (raceEvs.take 8) with
+  | none => rw [hr] at h; simp at h
+  | some s =>
+    rw [hr] at h; simp at h
+    have reach : ∀ (evs : List Ev) (s0 s1 : State), Reachable .fixed s0 → run .fixed s0 evs = some s1 → Reachable .fixed s1 := by
+      intro evs
+      induction evs with
+      | nil => intro s0 s1 h0 h1; simp [run] at h1; subst h1; exact h0
+      | cons e es ih =>
+        intro s0 s1 h0 h1
+        simp only [run] at h1
+        split at h1
+        · rename_i s2 h2; exact ih s2 s1 (Reachable.step e h0 h2) h1
+        · simp at h1
+    exact ⟨s, reach _ _ _ Reachable.init hr, h.1, h.2⟩
+
+end KafVerif.StorageLogEtcd
+
